@@ -59,6 +59,8 @@ struct Collect {
     raw_fns: Vec<(Vec<String>, Option<(Vec<String>, &'static Type)>, &'static Signature, &'static Visibility, &'static Block)>,
     raw_consts: Vec<RawConst>,
     raw_impl_consts: Vec<(Vec<String>, &'static Type, &'static ImplItemConst)>,
+    // API that is NOT const fn (so not translated): public non-const functions and trait impls, for the C05 coverage check
+    other_api: Vec<String>,
 }
 
 fn collect_items(c: &mut Collect, items: &'static [Item], module: Vec<String>) {
@@ -98,10 +100,18 @@ fn collect_items(c: &mut Collect, items: &'static [Item], module: Vec<String>) {
             Item::Fn(f) => {
                 if f.sig.constness.is_some() && f.sig.generics.params.is_empty() {
                     c.raw_fns.push((module.clone(), None, &f.sig, &f.vis, &f.block));
+                } else if matches!(f.vis, Visibility::Public(_)) {
+                    c.other_api.push(format!("fn {}{}", mod_prefix(&module), f.sig.ident));
                 }
             }
             Item::Impl(i) => {
-                if i.trait_.is_some() || !i.generics.params.is_empty() {
+                if let Some((_, path, _)) = &i.trait_ {
+                    let t = path.to_token_stream().to_string().replace(' ', "");
+                    let st = i.self_ty.to_token_stream().to_string().replace(' ', "");
+                    c.other_api.push(format!("impl {} for {}{}", t, mod_prefix(&module), st));
+                    continue;
+                }
+                if !i.generics.params.is_empty() {
                     continue;
                 }
                 for ii in &i.items {
@@ -109,6 +119,8 @@ fn collect_items(c: &mut Collect, items: &'static [Item], module: Vec<String>) {
                         ImplItem::Fn(f) => {
                             if f.sig.constness.is_some() && f.sig.generics.params.is_empty() {
                                 c.raw_fns.push((module.clone(), Some((module.clone(), &*i.self_ty)), &f.sig, &f.vis, &f.block));
+                            } else if matches!(f.vis, Visibility::Public(_)) {
+                                c.other_api.push(format!("fn {}{}::{}", mod_prefix(&module), i.self_ty.to_token_stream().to_string().replace(' ', ""), f.sig.ident));
                             }
                         }
                         ImplItem::Const(k) => c.raw_impl_consts.push((module.clone(), &*i.self_ty, k)),
@@ -156,7 +168,7 @@ fn main() {
     let args: Vec<String> = std::env::args().collect();
     let src = std::fs::read_to_string(&args[1]).expect("read expanded source");
     let file: &'static File = Box::leak(Box::new(parse_file(&src).expect("parse expanded source")));
-    let mut c = Collect { cx: Cx::default(), raw_structs: vec![], raw_enums: vec![], raw_fns: vec![], raw_consts: vec![], raw_impl_consts: vec![] };
+    let mut c = Collect { cx: Cx::default(), raw_structs: vec![], raw_enums: vec![], raw_fns: vec![], raw_consts: vec![], raw_impl_consts: vec![], other_api: vec![] };
     collect_items(&mut c, &file.items, vec![]);
 
     // ---- types
@@ -468,6 +480,11 @@ fn main() {
     }
     rep += "\n ],\n \"skipped\": [\n";
     rep += &skipped.iter().map(|(n, why)| format!("  {{\"item\": \"{}\", \"reason\": \"{}\"}}", n, why.replace('\\', "\\\\").replace('"', "'").replace('\n', " "))).collect::<Vec<_>>().join(",\n");
+    rep += "\n ],\n \"nonconst_api\": [\n";
+    let mut other = std::mem::take(&mut c.other_api);
+    other.sort();
+    other.dedup();
+    rep += &other.iter().map(|n| format!("  \"{}\"", n.replace('\\', "\\\\").replace('"', "'"))).collect::<Vec<_>>().join(",\n");
     rep += "\n ]\n}\n";
     std::fs::write(&args[3], rep).expect("write report");
     eprintln!("rs2coq: {} functions translated, {} items skipped", bodies.len(), skipped.len());
